@@ -69,3 +69,163 @@ VP_HARNESS(h_dec_fresh)
             touch(*(*ps)[i]);
         }
 }
+
+// =====================================================================================================
+// C04: a well-formed frame with K unsegmented messages of concrete lengths (contents, types, ids symbolic),
+// optionally zero-padded or truncated; every returned packet is compared with the wire by an independent
+// big-endian reader, and the valid/invalid marking with independent per-type structure rules.
+#ifndef KM
+#define KM 1
+#endif
+#ifndef ML0
+#define ML0 8
+#endif
+#ifndef ML1
+#define ML1 8
+#endif
+#ifndef ML2
+#define ML2 8
+#endif
+#ifndef PADZ
+#define PADZ 0   // zero bytes appended after the last message
+#endif
+#ifndef TRUNC
+#define TRUNC 0  // bytes cut from the end of the frame
+#endif
+#ifndef MTYPE
+#define MTYPE -1  // CMP header message type byte: -1 = symbolic
+#endif
+#ifndef PTYPE
+#define PTYPE -1  // payload type byte of every message: -1 = symbolic (non-zero)
+#endif
+static const unsigned MLEN[3] = {ML0, ML1, ML2};
+#define FULLSZ (8 + (KM > 0 ? 16 + ML0 : 0) + (KM > 1 ? 16 + ML1 : 0) + (KM > 2 ? 16 + ML2 : 0))
+#define NTOT (FULLSZ + PADZ - TRUNC)
+
+// independent structure rules: 1 = must be valid, 0 = must be invalid, 2 = not decided by the property
+static int expectValid(unsigned msgType, unsigned ptype, const uint8_t* p, unsigned L)
+{
+    if (msgType == 0)
+        return 2;
+    const unsigned t = (msgType << 8) | ptype;
+    if (t == 0x0101 || t == 0x0102)
+    {
+        if (L < 16 || p[15] > L - 16 || (vp_be16(p) & 0x03FF) != 0)
+            return 0;
+        return vp_be16(p + 12) == 0 ? 1 : 2;
+    }
+    if (t == 0x0103)
+        return (L >= 8 && p[7] <= L - 8) ? 1 : 0;
+    if (t == 0x0108)
+    {
+        if (L < 6 || vp_be16(p + 4) > L - 6 || (vp_be16(p) & 0x003B) != 0)
+            return 0;
+        return (vp_be16(p) & 0x007F) == 0 ? 1 : 2;
+    }
+    if (t == 0x0107)
+    {
+        if (L < 16)
+            return 0;
+        return (vp_be16(p) & 0x0003) <= 1 ? 1 : 0;
+    }
+    if (t == 0x0301)
+    {
+        if (L < 36)
+            return 0;
+        unsigned pos = 26;  // uptime 8, gm identity 8, clock quality 4, utc offset 2, time source, domain, reserved, gPTP flags
+        for (unsigned i = 0; i < 5; ++i)
+        {
+            if (L - pos < 2)
+                return 0;
+            const unsigned len = vp_be16(p + pos);
+            pos += 2;
+            if (len > L - pos)
+                return 0;
+            pos += len;
+        }
+        return 1;
+    }
+    if (t == 0x0302)
+    {
+        if (L < 40)
+            return 0;
+        unsigned pos = 36;
+        unsigned cnt = vp_be16(p + pos);
+        pos += 2;
+        cnt += cnt % 2;
+        if (cnt > L - pos || L - pos - cnt < 2)
+            return 0;
+        pos += cnt;
+        const unsigned vlen = vp_be16(p + pos);
+        pos += 2;
+        if (vlen > L - pos)
+            return 0;
+        return p[29] <= 2 ? 1 : 2;
+    }
+    return 1;  // unknown payload kinds are carried as generic payloads
+}
+
+VP_HARNESS(h_dec_wire)
+{
+    static uint8_t frame[FULLSZ + PADZ + 1];
+    vp_bytes(frame, FULLSZ);
+    frame[0] = VER;
+    if (MTYPE >= 0)
+        frame[4] = static_cast<uint8_t>(MTYPE);
+    unsigned off[3];
+    unsigned pos = 8;
+    for (unsigned i = 0; i < KM; ++i)
+    {
+        off[i] = pos;
+        frame[pos + 12] &= 0xB3;  // unsegmented, no error-in-payload flag (masked, not assumed: lets symex prune the reassembly path)
+        if (PTYPE >= 0)
+            frame[pos + 13] = static_cast<uint8_t>(PTYPE);
+        vp_assume(frame[pos + 13] != 0);
+        vp_put16(frame + pos + 14, static_cast<uint16_t>(MLEN[i]));
+        pos += 16 + MLEN[i];
+    }
+    for (unsigned i = 0; i < PADZ; ++i)
+        frame[FULLSZ + i] = 0;
+    // expected number of packets: messages that lie completely inside the NTOT bytes handed to the decoder
+    unsigned expect = 0;
+    for (unsigned i = 0; i < KM; ++i)
+        if (off[i] + 16 + MLEN[i] <= NTOT)
+            expect = i + 1;
+    uint8_t* buf = static_cast<uint8_t*>(operator new(NTOT ? NTOT : 1));
+    for (unsigned i = 0; i < NTOT; ++i)
+        buf[i] = frame[i];
+    Decoder* d = new Decoder;
+    Packets* ps = new Packets(d->decode(buf, NTOT));
+    vp_assert(ps->size() == expect, "C04: one packet per message that is completely contained in the frame, none for padding");
+    const unsigned msgType = frame[4];
+    for (unsigned i = 0; i < KM; ++i)
+        if (i < ps->size() && i < expect)
+        {
+            const Packet& p = *(*ps)[i];
+            const uint8_t* m = frame + off[i];
+            vp_assert(p.getVersion() == frame[0], "C04: version equals header byte 0");
+            vp_assert(p.getDeviceId() == vp_be16(frame + 2), "C04: device id equals big-endian header bytes 2-3");
+            vp_assert(p.getStreamId() == frame[5], "C04: stream id equals header byte 5");
+            vp_assert(p.getTimestamp() == vp_be64(m), "C04: timestamp equals big-endian message bytes 0-7");
+            if (msgType == 1)
+                vp_assert(p.getInterfaceId() == vp_be32(m + 8), "C04: interface id of a data message equals big-endian message bytes 8-11");
+            if (msgType == 3 || msgType == 0xFF)
+                vp_assert(p.getVendorId() == vp_be16(m + 10), "C04: vendor id of a status/vendor message equals big-endian message bytes 10-11");
+            vp_assert(p.getCommonFlags() == m[12], "C04: common flags equal message byte 12");
+            vp_assert(p.getSegmentType() == MessageHeader::SegmentType::unsegmented, "C04: unsegmented message yields an unsegmented packet");
+            vp_assert(p.getPayloadLength() == MLEN[i], "C04: payload length equals the declared length");
+            const int ev = expectValid(msgType, m[13], m + 16, MLEN[i]);
+            if (ev == 1)
+                vp_assert(p.isValid(), "C04: structurally consistent payload is returned valid");
+            if (ev == 0)
+                vp_assert(!p.isValid(), "C04: payload inconsistent with its length / carrying bus-error flags is marked invalid");
+            if (p.isValid())
+            {
+                vp_assert(static_cast<uint8_t>(p.getMessageType()) == msgType, "C04: message type equals header byte 4");
+                vp_assert(p.getPayloadType() == m[13], "C04: payload type equals message byte 13");
+                const uint8_t* raw = p.getPayload().getRawPayload();
+                for (unsigned b = 0; b < MLEN[i]; ++b)
+                    vp_assert(raw[b] == m[16 + b], "C04: payload bytes equal the wire bytes");
+            }
+        }
+}
